@@ -143,6 +143,7 @@ def parse_version(s):
 
 class C08:
     ID = "C08"
+    GEN_TIE = ["version"]     # definitions regenerated from version.py, io/json.py, io/version.py (harness/gen_tie.py)
     N_QUICK = 344           # 7/8 of them the older streams (as many as before), 1/8 the flag streams
     N_THOROUGH = 6880
     N_SEARCH = 300
@@ -1391,7 +1392,12 @@ class C08:
             text = h.to_json()
         except Exception as e:
             return {"outs": {"error": f"{type(e).__name__}: {e}"[:200], "dtype": str(h.dtype)}, "log": [str(e)[:200]]}
-        p = parse_json(text)
+        try:
+            p = parse_json(text)
+        except Exception as e:
+            # the library refuses the document it has just written
+            return {"outs": {"error": f"{type(e).__name__}: {e}"[:200], "dtype": str(getattr(h, "dtype", "")), "stage": "parse_json"},
+                    "log": [str(e)[:200]]}
         # the same document: equal as JSON values (objects are unordered; NaN tokens compare equal)
         canon = lambda t: json.dumps(json.loads(t, parse_constant=lambda c: "<" + c + ">"), sort_keys=True)
         out["text_stable"] = canon(p.to_json()) == canon(text)
@@ -1640,6 +1646,8 @@ class C08:
         if "error" in o:
             if o["dtype"] == "float128":
                 return ["json_float128: to_json() of a float128 histogram raises " + o["error"]]
+            if o.get("stage") == "parse_json":
+                return ["own_document_refused: parse_json() refuses the document to_json() has just written: " + o["error"]]
             return ["to_json_raises: to_json() raised " + o["error"]]
         if not o["text_stable"]:
             fails.append("second_serialisation: serialising the parsed object gives a different document")
